@@ -8,7 +8,7 @@ Request:  `sched  run  <locked 0|1>  <init>  <programs>  <schedule>`
   programs  := sessions separated by `|`, statements by `;`:
                `N<d>.<s>` connect · `T<t>.<c|->` CREATE TABLE [COMMENT] · `I<t>.<k>.<v>` INSERT · `R<t>` SELECT rows ·
                `W<t>` table metadata (exists, comment) · `G<t>.<k1>.<v1>.<k2>.<v2>…` MERGE
-  schedule  := `,`-separated session ids (one turn each), or `-`
+  schedule  := `,`-separated session ids (one turn each), or `-`; or the real trace `<sid>:<tag>,…` (see `alignAll`)
 Reply:    `impl=<observable results per session>  final=<tables>  done=<0|1>  nserial=<n>  ok=<0|1>  finding=<key|->
            serial=<outcome~outcome…>`   (outcome = results#final)
   results   := sessions `|`, entries `,`: `E` a statement raised · `r<k.v:k.v>` rows · `m<0|1>.<cmt|->` metadata
@@ -107,6 +107,80 @@ where
   nextKey' (c : Cfg) (j : Nat) : Option Key := (stepOf j (c.loc j)).map (·.1)
   instrKeysL (is : List Instr) : List Key := is.filterMap Instr.key
 
+/-! ### alignment of the real trace with the model's turns
+
+The harness reports every grant as `<session>:<tag>`, the tag naming WHAT the granted engine call was (not how many
+calls preceded it): `pd`/`ps` existence probe of a database / schema, `wa` ATTACH, `wi` info-schema DDL, `ws` CREATE
+SCHEMA, `wt` CREATE TABLE, `wc` comment upsert, `wn` INSERT, `wu` UPDATE, `or`/`om` the harness's row / metadata
+read, `L+`/`L-` lock acquire / release, `x` a grant to a finished session.  A probe the model is not waiting for (the
+code checks something once more) is dropped; a probe the model still has pending when the code moves on to a write is
+executed just before that write.  So adding or removing read-only calls in fakesnow does not shift the correspondence.
+The result is an ordinary schedule (list of session ids) – derived from the grants – on which `runSched`
+and the theorems apply. -/
+
+def opTag : Key → Op → String
+  | .db _, .create => "wa"
+  | .db _, .setInfo => "wi"
+  | .schema _ _, .create => "ws"
+  | .tbl _, .create => "wt"
+  | _, .setCmt _ => "wc"
+  | _, .insert _ _ => "wn"
+  | _, .mergeIns _ => "wn"
+  | _, .mergeUpd _ => "wu"
+  | _, .readRows => "or"
+  | _, .readMeta => "om"
+  | _, _ => "w?"
+
+def instrTag : Instr → String
+  | .acquire => "L+"
+  | .release => "L-"
+  | .probe (.db _) => "pd"
+  | .probe (.schema _ _) => "ps"
+  | .probe _ => "p?"
+  | .call k op => opTag k op
+  | .callIfAbsent k op => opTag k op
+
+def nextTag (c : Cfg) (i : Nat) : Option String :=
+  match settle (c.loc i).absent (c.loc i).cur (c.loc i).rest with
+  | ([], _) => none
+  | (ins :: _, _) => some (instrTag ins)
+
+def isProbeTag (t : String) : Bool := t == "pd" || t == "ps" || t == "p?"
+
+/-- model turns of session `i` that correspond to one real grant with tag `tag` -/
+def alignOne (i : Nat) (tag : String) : Nat → Cfg → Cfg × List Nat
+  | 0, c => (c, [])
+  | fuel + 1, c =>
+    match nextTag c i with
+    | none => (c, [])
+    | some t =>
+      if t == tag then (turn c i, [i])
+      else if isProbeTag tag then (c, [])                 -- a check the model does not make: dropped
+      else if isProbeTag t then                           -- the model still has a check pending: do it now
+        let r := alignOne i tag fuel (turn c i)
+        (r.1, i :: r.2)
+      else (c, [])                                        -- an engine call the model does not know
+
+def alignAll : Cfg → List (Nat × String) → List Nat
+  | _, [] => []
+  | c, (i, tag) :: es =>
+    let r := alignOne i tag 8 c
+    r.2 ++ alignAll r.1 es
+
+/-- trailing checks the code no longer makes -/
+def probeTail (n : Nat) : Nat → Cfg → List Nat
+  | 0, _ => []
+  | fuel + 1, c =>
+    match (List.range n).find? fun i => match nextTag c i with | some t => isProbeTag t | none => false with
+    | none => []
+    | some i => i :: probeTail n fuel (turn c i)
+
+def parseEvent (s : String) : Option (Nat × String) :=
+  match s.splitOn ":" with
+  | [i, t] => i.toNat?.map fun n => (n, t)
+  | [i] => i.toNat?.map fun n => (n, "")
+  | _ => none
+
 def handle : List String → String
   | ["run", locked, init, progs, sched] =>
     let lk := decBool locked
@@ -114,10 +188,15 @@ def handle : List String → String
     match (progs.splitOn "|").mapM (fun p => if p.isEmpty then some [] else (p.splitOn ";").mapM (parseStmt lk)) with
     | none => "bad-op"
     | some ps =>
-      let σ := if sched == "-" then [] else (sched.splitOn ",").filterMap (·.toNat?)
       let n := ps.length
       let g0 := inits.foldl applyInit (fun _ => {})
       let c0 : Cfg := { g := g0, loc := (Cfg.init ps).loc }
+      let evs := if sched == "-" then [] else (sched.splitOn ",").filterMap parseEvent
+      let tagged := evs.any fun e => e.2 != ""
+      let σ := if tagged then
+                 let σ1 := alignAll c0 evs
+                 σ1 ++ probeTail n 64 (runSched c0 σ1)
+               else evs.map (·.1)
       let c := runSched c0 σ
       let tbls := tablesOf ps inits
       let alldone := (List.range n).all fun i => done c i
@@ -129,7 +208,7 @@ def handle : List String → String
         encOuts r n ++ "#" ++ encFinal r tbls).eraseDups
       let ok := serial.contains outcome
       let key := if ok then "-" else interference n c0 σ
-      s!"impl={encOuts c n}\tfinal={encFinal c tbls}\tdone={encBool alldone}\tnserial={serial.length}\tok={encBool ok}\tfinding={key}\tserial={"~".intercalate serial}"
+      s!"impl={encOuts c n}\tfinal={encFinal c tbls}\tdone={encBool alldone}\tnserial={serial.length}\tok={encBool ok}\tfinding={key}\tserial={"~".intercalate serial}\tsigma={",".intercalate (σ.map toString)}"
   | _ => "bad-op"
 
 end Fs.Drv.Sched
